@@ -3,6 +3,9 @@ package rules
 import (
 	"fmt"
 	"go/ast"
+	"go/token"
+	"go/types"
+	"os"
 	"regexp"
 	"sort"
 	"strings"
@@ -32,7 +35,7 @@ var (
 )
 
 func checkC04(c *core.Ctx, l *core.Ledger) {
-	l.Explanation = "Static clauses of C04 (sibling agreement), on every feasible shape class of each template pair: (SIB-DECODE) FromWire and Decode of struct-like types have the same field arms (id guard, type guard, assignment target, required/optional form, presence flags) and the same post-loop checks; (SIB-ENCODE) ToWire and Encode write each field under the same guard, nil-check, default substitution and arity check; (SIB-CONTAINER) the value and stream forms of list/set/map readers decode the same element types in the same order and build the collection the same way, and of the writers check and write the same elements; the one intentional asymmetry (type-mismatched container: absent vs. skip exactly Length elements) is the CONTAINER-MISMATCH rule of C05; (SIB-WRAPPER) typedef, enum and struct helper pairs are identical up to the path-specific primitive; (SIB-REQUEST) the two request decoders have identical classification arms (with C12); (FULL-READ) every use of the StreamReader's wrapped io.Reader is an argument of io.ReadFull or io.CopyN (or a reset/type test), so how the byte stream is split into reads cannot influence what is decoded. NOT decided: equality of the decoded Go values; behaviour on invalid Go values."
+	l.Explanation = "Static clauses of C04 (sibling agreement), on every feasible shape class of each template pair: (SIB-DECODE) FromWire and Decode of struct-like types have the same field arms (id guard, type guard, assignment target, required/optional form, presence flags) and the same post-loop checks; (SIB-ENCODE) ToWire and Encode write each field under the same guard, nil-check, default substitution and arity check; (SIB-CONTAINER) the value and stream forms of list/set/map readers decode the same element types in the same order and build the collection the same way, and of the writers check and write the same elements; the one intentional asymmetry (type-mismatched container: absent vs. skip exactly Length elements) is the CONTAINER-MISMATCH rule of C05; (SIB-WRAPPER) typedef, enum and struct helper pairs are identical up to the path-specific primitive; (SIB-REQUEST) the two request decoders have identical classification arms (with C12); (FULL-READ) every use of the StreamReader's wrapped io.Reader is an argument of io.ReadFull or io.CopyN (or a reset/type test), so how the byte stream is split into reads cannot influence what is decoded. (W-FAIL-CAUSES) the serializers of protocol/binary (StreamWriter, Writer and everything they reach in the package) originate an error only when re-wording one they received or for a wire type outside the protocol — no condition on the content or shape of a valid value (nesting depth, string content) makes a serializer fail. NOT decided: equality of the decoded Go values; behaviour on invalid Go values."
 	l.RuleText = "one obligation per (template pair, shape class)"
 	l.Exhaustive = true
 	mod := tmpl.Extract(c)
@@ -198,6 +201,7 @@ func checkC04(c *core.Ctx, l *core.Ledger) {
 	checkFailCauses(c, l)
 	// decoded binaries and strings must not be views of memory the (pooled) reader keeps and reuses
 	checkFreshResults(c, l, "FRESH-RESULT", []string{"protocol/binary"})
+	checkWriteFailCauses(c, l)
 	checkStreamReaderFullRead(c, l)
 	checkNoRawRead(c, l, "FULL-READ", []string{"protocol/binary"})
 	checkReaderAdapters(c, l, "READER-ADAPTER", []string{"protocol/binary", "protocol", "envelope", "internal/envelope"})
@@ -366,31 +370,154 @@ func checkStreamReaderFullRead(c *core.Ctx, l *core.Ledger) {
 	_ = n
 }
 
-// failCauses: for each function of the decode layer, the kinds of conditions
-// under which it *originates* an error (as opposed to passing one on).
-func failCauses(c *core.Ctx, recvs ...string) map[string][]string {
-	want := map[string]bool{}
-	for _, r := range recvs {
-		want[r] = true
+// errorOrigins lists the instructions of f at which an error value comes into
+// being (as opposed to being passed on from a callee): calls of error
+// constructors (fmt.Errorf, errors.New, functions and conversions yielding a
+// concrete error type) and loads of package-level error variables that are
+// used as a value (returned, stored, merged) rather than only compared.
+func errorOrigins(f *ssa.Function) []ssa.Instruction {
+	var out []ssa.Instruction
+	errIface := types.Universe.Lookup("error").Type().Underlying().(*types.Interface)
+	isErrIface := func(t types.Type) bool {
+		it, ok := t.Underlying().(*types.Interface)
+		return ok && types.Identical(it, errIface)
 	}
-	out := map[string][]string{}
-	for _, f := range c.AllFuncs("protocol/binary") {
-		if c.IsTestFile(f.Pos()) || !want[recvNamed(f)] || len(f.Blocks) == 0 {
-			continue
+	concreteErr := func(t types.Type) bool {
+		if _, isI := t.Underlying().(*types.Interface); isI {
+			return false
 		}
-		core.Instrs(f, func(in ssa.Instruction) {
-			call, ok := in.(*ssa.Call)
-			if !ok {
-				return
+		return types.Implements(t, errIface) || types.Implements(types.NewPointer(t), errIface)
+	}
+	usedAsValue := func(v ssa.Value) bool {
+		refs := v.Referrers()
+		if refs == nil {
+			return false
+		}
+		for _, r := range *refs {
+			switch x := r.(type) {
+			case *ssa.BinOp, *ssa.DebugRef:
+			case *ssa.Call:
+				// errors.Is(err, io.EOF) and the like only compare
+				if o := core.CalleeObj(x); o != nil && o.Pkg() != nil && o.Pkg().Path() == "errors" {
+					continue
+				}
+				return true
+			default:
+				return true
 			}
-			o := core.CalleeObj(call)
+		}
+		return false
+	}
+	counted := map[ssa.Value]bool{}
+	core.Instrs(f, func(in ssa.Instruction) {
+		switch x := in.(type) {
+		case *ssa.Call:
+			o := core.CalleeObj(x)
 			if o == nil || o.Pkg() == nil {
 				return
 			}
 			full := o.Pkg().Path() + "." + o.Name()
-			if !(strings.HasSuffix(full, "/protocol/binary.decodeErrorf") || full == "fmt.Errorf" || full == "errors.New" || strings.HasSuffix(full, "/protocol/binary.errUnexpectedEnvelopeType")) {
-				return
+			sig, _ := o.Type().(*types.Signature)
+			if full == "fmt.Errorf" || full == "errors.New" || (sig != nil && sig.Results().Len() == 1 && concreteErr(sig.Results().At(0).Type())) {
+				out = append(out, in)
+				counted[x] = true
 			}
+		case *ssa.UnOp:
+			if g, ok := x.X.(*ssa.Global); ok && x.Op == token.MUL && isErrIface(x.Type()) && usedAsValue(x) {
+				_ = g
+				out = append(out, in)
+			}
+		case *ssa.MakeInterface:
+			if isErrIface(x.Type()) && concreteErr(x.X.Type()) && !counted[x.X] {
+				if _, isParam := x.X.(*ssa.Parameter); !isParam {
+					out = append(out, in)
+				}
+			}
+		}
+	})
+	return out
+}
+
+// failCauses: for each function of the given layer, the kinds of conditions
+// under which it *originates* an error (as opposed to passing one on).
+func failCauses(c *core.Ctx, recvs ...string) map[string][]string {
+	return failCausesExcept(c, nil, recvs...)
+}
+
+// layerFuncs: the methods of the named receiver types in protocol/binary plus
+// every function of the package they reach through static calls, closures and
+// function values (so that a cause moved into a free helper stays in scope).
+func layerFuncs(c *core.Ctx, recvs ...string) map[*ssa.Function]bool {
+	want := map[string]bool{}
+	for _, r := range recvs {
+		want[r] = true
+	}
+	in := map[*ssa.Function]bool{}
+	var work []*ssa.Function
+	var pkg *ssa.Package
+	for _, f := range c.AllFuncs("protocol/binary") {
+		if c.IsTestFile(f.Pos()) || len(f.Blocks) == 0 {
+			continue
+		}
+		if want[recvNamed(f)] {
+			in[f] = true
+			work = append(work, f)
+			pkg = f.Pkg
+		}
+	}
+	add := func(g *ssa.Function) {
+		if g == nil || len(g.Blocks) == 0 || in[g] {
+			return
+		}
+		gp := g.Pkg
+		if gp == nil && g.Parent() != nil {
+			gp = g.Parent().Pkg
+		}
+		if gp != pkg {
+			return
+		}
+		in[g] = true
+		work = append(work, g)
+	}
+	for len(work) > 0 {
+		f := work[len(work)-1]
+		work = work[:len(work)-1]
+		core.Instrs(f, func(i ssa.Instruction) {
+			for _, op := range i.Operands(nil) {
+				if op == nil || *op == nil {
+					continue
+				}
+				switch x := (*op).(type) {
+				case *ssa.Function:
+					add(x)
+				case *ssa.MakeClosure:
+					if g, ok := x.Fn.(*ssa.Function); ok {
+						add(g)
+					}
+				}
+			}
+			if mc, ok := i.(*ssa.MakeClosure); ok {
+				if g, ok := mc.Fn.(*ssa.Function); ok {
+					add(g)
+				}
+			}
+		})
+	}
+	return in
+}
+
+func failCausesExcept(c *core.Ctx, except map[*ssa.Function]bool, recvs ...string) map[string][]string {
+	out := map[string][]string{}
+	layer := layerFuncs(c, recvs...)
+	var fns []*ssa.Function
+	for f := range layer {
+		if !except[f] {
+			fns = append(fns, f)
+		}
+	}
+	sort.Slice(fns, func(i, j int) bool { return fns[i].Pos() < fns[j].Pos() })
+	for _, f := range fns {
+		for _, in := range errorOrigins(f) {
 			conds := nestingConds(in.Block())
 			class := "unconditional"
 			allTypeCmp := len(conds) > 0
@@ -401,24 +528,51 @@ func failCauses(c *core.Ctx, recvs ...string) map[string][]string {
 					allTypeCmp = false
 				}
 			}
+			first := ""
+			if len(conds) > 0 {
+				first = conds[0]
+			}
 			switch {
-			case len(conds) > 0 && strings.Contains(conds[0], "<c:0)") && !strings.HasPrefix(conds[0], "!"):
+			case len(conds) > 0 && strings.Contains(first, "<c:0)") && !strings.HasPrefix(first, "!"):
 				class = "negative-length"
 			case allTypeCmp:
 				class = "unknown-type"
-			case len(conds) > 0 && strings.Contains(conds[0], "c:4294901760"):
+			case strings.Contains(first, "c:4294901760"):
 				class = "envelope-version"
-			case len(conds) > 0 && strings.Contains(conds[0], ".Type!="):
+			case strings.Contains(first, ".Type!="):
 				class = "envelope-type"
-			case len(conds) > 0 && (strings.Contains(conds[0], "ReadInt8") || strings.Contains(conds[0], "readByte") || strings.Contains(conds[0], ".buffer[")):
+			case strings.Contains(first, "ReadInt8") || strings.Contains(first, "readByte") || strings.Contains(first, ".buffer["):
 				class = "byte-domain"
+			case strings.Contains(first, "g:EOF") && !strings.HasPrefix(first, "!"):
+				class = "eof-translation"
+			case isErrNilTest(in.Block()):
+				class = "wrap"
 			case len(conds) > 0:
-				class = "other:" + conds[0]
+				class = "other:" + first
+			}
+			if os.Getenv("VDEBUG") != "" {
+				fmt.Fprintln(os.Stderr, "origin", core.SSAName(f), c.Rel(in.Pos()), class, conds)
 			}
 			out[class] = append(out[class], c.Rel(in.Pos()))
-		})
+		}
 	}
 	return out
+}
+
+// isErrNilTest: the block is entered only through the non-nil edge of a test
+// of an error value against nil (the origin re-words an error it received).
+func isErrNilTest(b *ssa.BasicBlock) bool {
+	for i := 0; i < 8 && len(b.Preds) == 1; i++ {
+		p := b.Preds[0]
+		if ifi, ok := p.Instrs[len(p.Instrs)-1].(*ssa.If); ok {
+			if okEdge, is := core.IsErrCheck(ifi); is {
+				return p.Succs[1-okEdge] == b
+			}
+			return false
+		}
+		b = p
+	}
+	return false
 }
 
 // checkFailCauses: the streaming reader and the random-access reader originate
@@ -427,10 +581,10 @@ func failCauses(c *core.Ctx, recvs ...string) map[string][]string {
 // inputs the other accepts.
 func checkFailCauses(c *core.Ctx, l *core.Ledger) {
 	stream := failCauses(c, "StreamReader")
-	value := failCauses(c, "reader", "Reader")
+	value := failCausesExcept(c, layerFuncs(c, "StreamReader"), "reader", "Reader")
 	// the random-access reader delegates primitives to the stream reader: its own causes must be a subset,
 	// and neither side may have a cause class outside the protocol's own (length sign, type domain, byte domain, envelope)
-	known := map[string]bool{"negative-length": true, "unknown-type": true, "envelope-version": true, "envelope-type": true, "byte-domain": true}
+	known := map[string]bool{"negative-length": true, "unknown-type": true, "envelope-version": true, "envelope-type": true, "byte-domain": true, "eof-translation": true}
 	var classes []string
 	for k := range stream {
 		classes = append(classes, "stream:"+k)
@@ -452,4 +606,28 @@ func checkFailCauses(c *core.Ctx, l *core.Ledger) {
 		l.Check(ok, "FAIL-CAUSES", sk, sites[0], fmt.Sprintf("decode errors of this kind are part of the protocol (%d site(s))", len(sites)), "the "+side+" path originates a decode error under a condition the other path does not have ("+k+"): an input accepted by one path is rejected by the other")
 	}
 	l.Floor("FAIL-CAUSES", 3)
+}
+
+// checkWriteFailCauses: the serializers of protocol/binary originate an error
+// only when re-wording one they received (nested under the non-nil edge of an
+// error test) or for a wire type outside the protocol. Any other cause — a
+// nesting limit, a test on the content of a string — makes a serializer refuse
+// a valid value, and makes the streaming and the value-based serializer
+// disagree when only one of them passes through it.
+func checkWriteFailCauses(c *core.Ctx, l *core.Ledger) {
+	causes := failCauses(c, "StreamWriter", "Writer", "writer")
+	known := map[string]bool{"wrap": true, "unknown-type": true}
+	var classes []string
+	for k := range causes {
+		classes = append(classes, k)
+	}
+	sort.Strings(classes)
+	for _, k := range classes {
+		l.Check(known[k], "W-FAIL-CAUSES", "write:"+k, causes[k][0], fmt.Sprintf("serializer errors of this kind are not about the value's content (%d site(s))", len(causes[k])), "a serializer originates an error under a condition on the value ("+k+"): a valid value is refused (and only by the serializer that passes through this code)")
+	}
+	n := len(layerFuncs(c, "StreamWriter", "Writer", "writer"))
+	l.Add(core.Obligation{Rule: "W-FAIL-CAUSES", Key: "scan", Status: core.Discharged, Detail: fmt.Sprintf("%d functions of the serializer layer scanned for error origins", n)})
+	if n < 20 {
+		l.Unk("W-FAIL-CAUSES", "scope", "", fmt.Sprintf("only %d functions found in the serializer layer (expected the StreamWriter and Writer methods)", n))
+	}
 }
